@@ -298,7 +298,7 @@ def energy_estimate(model, layer_map, weights_on_memory,
         "AveragePooling2D", "AvgPool2D", "GlobalAvgPool2D",
         "GlobalAveragePooling2D"]:
       # accumulation operation energy
-      accumulator = qtools_util.get_val(layer_item, "accumulator")
+      accumulator = qtools_util.get_val(layer_item, "pool_sum_accumulator")
       add_energy = OP[get_op_type(accumulator.output)]["add"](
           accumulator.output.bits)
       energy_op = operation_count * add_energy
